@@ -339,6 +339,9 @@ Ltac kstep :=
   | |- kp _ (let _ := _ in _) => cbv zeta
   | |- kp _ (if ?c then _ else _) => destruct c eqn:?
   | |- kp _ (match ?x with _ => _ end) => destruct x eqn:?
+  | |- kp _ (iterM _ _) => apply kv_iterM; intros
+  | |- kp _ (mapM _ _) => apply kv_mapM; intros
+  | |- kp _ (foldM _ _ _) => apply kv_foldM with (P := fun _ => True); [intros|exact I]
   | |- kp _ _ => solve [eauto with kp]
   | |- kv ?c ?m (fun _ => True) => change (kp c m); kstep
   end.
@@ -1054,7 +1057,7 @@ Section Core.
   Proof.
     unfold coll_prepare. destruct (family_of (a_ty sp)) as [fam|]; [|apply kv_ret; auto].
     eapply kv_bind with (Q := fun c1 => ns coll -> ns c1).
-    { destruct coll; try (apply kv_ret; auto); (eapply kv_weaken; [apply create_collection_kv|]; auto). }
+    { destruct coll; try solve [apply kv_ret; auto]; (eapply kv_weaken; [apply create_collection_kv|]; auto). }
     intros coll1 H1. apply kv_bind with (Q := fun _ => True); [apply kv_check_typeM|]. intros ok _.
     destruct (negb ok).
     - eapply kv_bind; [apply create_collection_kv|]. intros fresh Hf.
@@ -1094,4 +1097,433 @@ Section Core.
   Lemma kp_prepare_attr_value sp inst value attrs : KP (prepare_attr_value ct rec sp inst value attrs).
   Proof. eapply kp_of_kv; apply prepare_attr_value_kv. Qed.
   Hint Resolve kp_prepare_attr_value kp_mutate_collection : kp.
+
+  (* ---------- __delattr__ / __setattr__ ---------- *)
+  Lemma kj_kp {T} (P : state -> Prop) (m : M T) : KP m -> KJ P m (fun _ _ => True).
+  Proof. intros H s _. destruct (H s) as [E _]. split; auto. destruct (fst (m s)); auto. Qed.
+  Lemma isinst_inj l c c' s : isinst l c s -> isinst l c' s -> c = c'.
+  Proof. intros [d H] [d' H']. congruence. Qed.
+
+  Lemma not_keep_none c k a : lookup_cls ct c = Some k -> lookup_attr k a = None -> ~ keep ct c a.
+  Proof. intros Hk Ha [_ (k' & sp & H1 & H2 & _)]. congruence. Qed.
+  Lemma not_keep_nodefault c k a sp :
+    lookup_cls ct c = Some k -> lookup_attr k a = Some sp -> has_default k sp = false -> ~ keep ct c a.
+  Proof. intros Hk Ha Hd [_ (k' & sp' & H1 & H2 & H3)]. congruence. Qed.
+
+  Lemma kp_delattr l a skip : KP (delattr_ ct rec l a false skip).
+  Proof.
+    unfold delattr_. eapply kp_of_kj.
+    eapply kj_bind; [apply kj_read_inst|]. intros p.
+    eapply kj_bind; [apply kj_cls_of|]. intros k.
+    apply kj_pre with (P := fun s => lookup_cls ct (fst p) = Some k /\ isinst l (fst p) s).
+    2:{ intros s [[_ H] Hk]. split; auto. eexists; eauto. }
+    apply kj_pure. intro Hk.
+    eapply kj_bind with (Q := fun _ s => isinst l (fst p) s).
+    { destruct (negb (false || initializing (snd p)) && c_frozen k); [apply kj_fail|apply kj_ret; auto]. }
+    intros ?. change (if false then None else lookup_attr k a) with (lookup_attr k a).
+    assert (Htail : ~ keep ct (fst p) a ->
+              KJ (isinst l (fst p))
+                 (raw_delattr l a ;;; (if skip then ret tt else invalidate_attrs ct rec l a) ;;; ret VNone)
+                 (fun _ _ => True)).
+    { intro NK. eapply kj_bind; [apply raw_delattr_kj; exact NK|]. intros ?. apply kj_kp. kgo. }
+    destruct (lookup_attr k a) as [sp|] eqn:Ea.
+    - eapply kj_bind; [apply kj_of_kv; [apply lookup_default_value_kv|apply isinst_stable]|]. intros d.
+      apply kj_pure. intros [Hd _].
+      destruct (is_missing d) eqn:Em.
+      + apply Htail. apply (not_keep_nodefault _ k a sp Hk Ea).
+        destruct (has_default k sp); [exact (Hd eq_refl)|reflexivity].
+      + apply kj_kp. kgo.
+    - apply Htail. eapply not_keep_none; eauto.
+  Qed.
+
+  Lemma setattr_kj l a v force skip :
+    KJ TT (setattr_ ct rec l a v force skip) (kpost (KSetAttr l a v force skip)).
+  Proof.
+    unfold setattr_, kpost.
+    eapply kj_bind; [apply kj_read_inst|]. intros p.
+    eapply kj_bind; [apply kj_cls_of|]. intros k.
+    apply kj_pre with (P := fun s => lookup_cls ct (fst p) = Some k /\ isinst l (fst p) s).
+    2:{ intros s [[_ H] Hk]. split; auto. eexists; eauto. }
+    apply kj_pure. intro Hk.
+    eapply kj_bind with (Q := fun value s => (tgb ct = true -> nu v -> keep ct (fst p) a -> ns value) /\ isinst l (fst p) s).
+    { destruct (lookup_attr k a) as [sp|] eqn:Ea.
+      - eapply kj_post; [apply kj_of_kv; [apply prepare_attr_value_kv|apply isinst_stable]|].
+        intros value s [Hq Hi]. split; auto. intros Hg Hn _. apply Hq; auto.
+        destruct (lookup_attr_In _ _ _ Ea) as [Hin _]. eapply tgb_spec; eauto.
+      - apply kj_ret. intros s Hi. split; auto. intros _ _ [_ (k' & sp' & H1 & H2 & _)]. congruence. }
+    intros value. apply kj_pure. intro Hval.
+    eapply kj_conseq with (P := fun s => isinst l (fst p) s /\ isinst l (fst p) s);
+      [apply kj_frame with (F := isinst l (fst p));
+         [apply isinst_stable|
+          apply kj_assume with (phi := ns value /\ keep ct (fst p) a); [|apply kp_mutate_attr]]|auto|].
+    { intros [H1 H2]. apply mutate_attr_kj; auto. }
+    intros r s [Hpost Hi'] Hg Hn c Hi Hkeep.
+    assert (c = fst p) by (eapply isinst_inj; eauto). subst c. apply Hpost. split; auto.
+  Qed.
+
+  Lemma kp_rec_init c l kw : KP (rec (KInit c l kw)).
+  Proof. apply rec_kp. exact I. Qed.
+  Hint Resolve kp_rec_init kp_delattr : kp.
+
+  (* ---------- __init__ ---------- *)
+  Lemma kp_init spec_cls self kw0 : KP (init_ ct rec spec_cls self kw0).
+  Proof. unfold init_. kgo. Qed.
+
+  (* InitMethod.init after the classes have been looked up (same text as in Model.init_) *)
+  Definition init_tail (spec_cls : cid) (self : loc) (ks im : cls) (top : bool) (kw0 : list (aid * val)) : M val :=
+    kw1 <- (if top then
+              raw_setattr self A_INITIALIZING (VBool true) ;;;
+              foldM (fun kw parent =>
+                       pk <- cls_of ct parent ;;
+                       r <- foldM (fun acc psp =>
+                                     let '(pkw, kw') := acc in
+                                     match lookup_attr im (a_name psp) with
+                                     | None => ret acc
+                                     | Some isp =>
+                                         if negb (a_owner isp =? parent) then ret acc
+                                         else match assoc (a_name psp) kw' with
+                                              | Some v =>
+                                                  v' <- (if a_dnc isp then ret v else protect ct v) ;;
+                                                  ret (pkw ++ [(a_name psp, v')], assoc_del (a_name psp) kw')
+                                              | None =>
+                                                  d <- lookup_default_value ct rec isp im ;;
+                                                  if is_missing d then ret acc
+                                                  else ret (pkw ++ [(a_name psp, d)], kw')
+                                              end
+                                     end)
+                                  (c_attrs pk) ([], kw) ;;
+                       let '(pkw, kw') := r in
+                       let pkw' := match c_key pk with
+                                   | Some ka => if kw_has ka pkw then pkw else pkw ++ [(ka, VMissing)]
+                                   | None => pkw end in
+                       rec (KInit parent self pkw') ;;; ret kw')
+                    (rev (tl (c_mro ks))) kw0
+            else ret kw0) ;;
+    iterM (fun sp =>
+             if negb (a_init sp) || negb (a_owner sp =? spec_cls) then ret tt else
+             r <- (match assoc (a_name sp) kw1 with
+                   | Some v => if is_missing v then (d <- lookup_default_value ct rec sp im ;; ret (d, false))
+                               else ret (v, top && negb (a_dnc sp))
+                   | None => d <- lookup_default_value ct rec sp im ;; ret (d, false) end) ;;
+             let '(value, copy_required) := r in
+             if is_missing value then ret tt else
+             value' <- (if copy_required then protect ct value else ret value) ;;
+             rec (KSetAttr self (a_name sp) value' true true) ;;; ret tt)
+          (c_attrs im) ;;;
+    (if top then
+       (match c_post_init im with
+        | Some g => apply_fn g VNone ;;; ret tt
+        | None => ret tt end) ;;;
+       raw_delattr self A_INITIALIZING
+     else ret tt) ;;;
+    ret VNone.
+
+  Lemma init_unfold spec_cls self kw0 :
+    init_ ct rec spec_cls self kw0 =
+    (ks <- cls_of ct spec_cls ;;
+     if negb (init_wrapper_ok ks kw0) then fail TypeErr else
+     p <- read_inst self ;; im <- cls_of ct (fst p) ;;
+     init_tail spec_cls self ks im (c_owner im =? spec_cls) kw0).
+  Proof. reflexivity. Qed.
+
+  (* the defaulted init-enabled attributes owned by one of `owners` are in the dictionary of self *)
+  Definition HP (self : loc) (c : cid) (k : cls) (owners : cid -> Prop) (s : state) : Prop :=
+    forall a sp, lookup_attr k a = Some sp -> a <> A_INITIALIZING -> a_init sp = true ->
+                 has_default k sp = true -> owners (a_owner sp) -> has self c a s.
+  Lemma HP_stable self c k owners : lookup_cls ct c = Some k -> stable ct (HP self c k owners).
+  Proof.
+    intros Hk s s' E H a sp H1 H2 H3 H4 H5. eapply has_stable; [|exact E|eapply H; eauto].
+    split; auto. exists k, sp. auto.
+  Qed.
+
+  Lemma kw_nu_app kw a v : kw_nu kw -> nu v -> kw_nu (kw ++ [(a, v)]).
+  Proof. intros H Hv. apply Forall_app. split; [exact H|]. constructor; [exact Hv|constructor]. Qed.
+  Lemma kw_nu_del kw a : kw_nu kw -> kw_nu (assoc_del a kw).
+  Proof.
+    intros H. unfold kw_nu, assoc_del in *. rewrite Forall_forall in *. intros p Hp.
+    apply filter_In in Hp. destruct Hp; auto.
+  Qed.
+  Lemma kw_nu_assoc kw a v : kw_nu kw -> assoc a kw = Some v -> nu v.
+  Proof.
+    unfold assoc. intros H E.
+    destruct (find (fun p : nat * val => fst p =? a) kw) as [[x y]|] eqn:F; simpl in E; [|discriminate].
+    inversion E; subst. apply find_some in F. destruct F as [F _]. unfold kw_nu in H.
+    rewrite Forall_forall in H. exact (H _ F).
+  Qed.
+
+  Section InitTail.
+    Variables (spec_cls : cid) (self : loc) (ks im : cls) (c : cid) (kw0 : list (aid * val)).
+    Hypothesis Hg : tgb ct = true.
+    Hypothesis Hks : lookup_cls ct spec_cls = Some ks.
+    Hypothesis Him : lookup_cls ct c = Some im.
+    Hypothesis Hkw : kw_nu kw0.
+
+    Let top := c_owner im =? spec_cls.
+    Let HP1 := HP self c im (fun o => top = true /\ In o (tl (c_mro ks))).
+    Let F1 := fun s => isinst self c s /\ HP1 s.
+
+    Lemma F1_stable : stable ct F1.
+    Proof. apply stable_and; [apply isinst_stable|apply HP_stable; exact Him]. Qed.
+
+    Lemma phase1_kj :
+      KJ (isinst self c)
+         (if top then
+            raw_setattr self A_INITIALIZING (VBool true) ;;;
+            foldM (fun kw parent =>
+                     pk <- cls_of ct parent ;;
+                     r <- foldM (fun acc psp =>
+                                   let '(pkw, kw') := acc in
+                                   match lookup_attr im (a_name psp) with
+                                   | None => ret acc
+                                   | Some isp =>
+                                       if negb (a_owner isp =? parent) then ret acc
+                                       else match assoc (a_name psp) kw' with
+                                            | Some v =>
+                                                v' <- (if a_dnc isp then ret v else protect ct v) ;;
+                                                ret (pkw ++ [(a_name psp, v')], assoc_del (a_name psp) kw')
+                                            | None =>
+                                                d <- lookup_default_value ct rec isp im ;;
+                                                if is_missing d then ret acc
+                                                else ret (pkw ++ [(a_name psp, d)], kw')
+                                            end
+                                   end)
+                                (c_attrs pk) ([], kw) ;;
+                     let '(pkw, kw') := r in
+                     let pkw' := match c_key pk with
+                                 | Some ka => if kw_has ka pkw then pkw else pkw ++ [(ka, VMissing)]
+                                 | None => pkw end in
+                     rec (KInit parent self pkw') ;;; ret kw')
+                  (rev (tl (c_mro ks))) kw0
+          else ret kw0)
+         (fun kw1 s => kw_nu kw1 /\ F1 s).
+    Proof.
+      destruct top eqn:Et.
+      2:{ apply kj_ret. intros s Hi. split; [exact Hkw|]. split; [exact Hi|].
+          intros a sp _ _ _ _ [E _]. discriminate. }
+      eapply kj_bind; [apply kj_of_kp; [apply kp_raw_setattr|apply isinst_stable]|]. intros ?.
+      set (Inv := fun (done : list cid) (kw : list (aid * val)) (s : state) =>
+                    kw_nu kw /\ isinst self c s /\ HP self c im (fun o => In o done) s).
+      eapply kj_conseq; [apply (kj_foldM ct _ Inv) with (done := [])| |].
+      - (* one parent *)
+        intros done kw parent.
+        assert (StF : stable ct (fun s => isinst self c s /\ HP self c im (fun o => In o done) s)).
+        { apply stable_and; [apply isinst_stable|apply HP_stable; exact Him]. }
+        apply kj_pre with (P := fun s => kw_nu kw /\ (isinst self c s /\ HP self c im (fun o => In o done) s)).
+        2:{ intros s (A & B & C). auto. }
+        apply kj_pure. intro Hkwn.
+        eapply kj_bind; [apply kj_of_kv; [apply kv_cls_of|exact StF]|]. intros pk. apply kj_pure. intros _.
+        eapply kj_bind.
+        { apply kj_of_kv; [|exact StF].
+          apply kv_foldM with (P := fun acc : list (aid * val) * list (aid * val) => kw_nu (fst acc) /\ kw_nu (snd acc));
+            [|split; [constructor|exact Hkwn]].
+          intros [pkw kw'] psp _ [Hp1 Hp2]. simpl in Hp1, Hp2.
+          destruct (lookup_attr im (a_name psp)) as [isp|] eqn:Ei; [|apply kv_ret; split; auto].
+          destruct (negb (a_owner isp =? parent)); [apply kv_ret; split; auto|].
+          destruct (assoc (a_name psp) kw') eqn:Ea.
+          - eapply kv_bind with (Q := nu).
+            + destruct (a_dnc isp); [apply kv_ret; eapply kw_nu_assoc; eauto|].
+              eapply kv_weaken; [apply protect_kv|]. intros r Hr. eapply same_kind_nu; eauto.
+              eapply kw_nu_assoc; eauto.
+            + intros v' Hv'. apply kv_ret. simpl. split; [apply kw_nu_app; auto|apply kw_nu_del; auto].
+          - eapply kv_bind; [apply lookup_default_value_kv|]. intros d [_ Hd].
+            destruct (is_missing d); apply kv_ret; simpl; split; auto.
+            apply kw_nu_app; auto. apply Hd; eauto. eapply lookup_attr_In; eauto. }
+        intros [pkw kw']. apply kj_pure. intros [Hp1 Hp2]. simpl in Hp1, Hp2. cbv zeta.
+        set (pkw' := match c_key pk with
+                     | Some ka => if kw_has ka pkw then pkw else pkw ++ [(ka, VMissing)]
+                     | None => pkw end).
+        assert (Hpkw' : kw_nu pkw').
+        { unfold pkw'. destruct (c_key pk) as [ka|]; auto. destruct (kw_has ka pkw); auto. apply kw_nu_app; auto. discriminate. }
+        eapply kj_bind.
+        { eapply kj_pre; [apply kj_frame with (F := fun s => isinst self c s /\ HP self c im (fun o => In o done) s);
+                            [exact StF|apply (Hrec (KInit parent self pkw') I)]|].
+          intros s H; split; [exact I|exact H]. }
+        intros ?. apply kj_ret. intros s [Hpost [Hi Hh]]. unfold Inv. split; [exact Hp2|]. split; [exact Hi|].
+        intros a' sp H1 H2 H3 H4 H5. apply in_app_or in H5. destruct H5 as [H5|[H5|[]]].
+        + eapply Hh; eauto.
+        + simpl in Hpost. eapply (Hpost Hg Hpkw' c im a' sp); eauto.
+      - intros s Hi. unfold Inv. split; [exact Hkw|]. split; [exact Hi|]. intros a' sp _ _ _ _ [].
+      - intros kw1 s (A & B & C). simpl in C. split; [exact A|]. split; [exact B|].
+        intros a' sp H1 H2 H3 H4 [_ H5]. eapply C; eauto. apply in_rev in H5. exact H5.
+    Qed.
+
+    Definition Inv2 (done : list attr_spec) (s : state) : Prop :=
+      F1 s /\ forall sp, In sp done -> lookup_attr im (a_name sp) = Some sp -> a_name sp <> A_INITIALIZING ->
+                         a_init sp = true -> a_owner sp = spec_cls -> has_default im sp = true ->
+                         has self c (a_name sp) s.
+    Lemma Inv2_stable done : stable ct (Inv2 done).
+    Proof.
+      apply stable_and; [apply F1_stable|]. intros s s' E H sp H0 H1 H2 H3 H4 H5.
+      eapply has_stable; [|exact E|eapply H; eauto]. split; auto. exists im, sp. auto.
+    Qed.
+
+    Lemma phase2_kj kw1 :
+      kw_nu kw1 ->
+      KJ F1
+        (iterM (fun sp =>
+             if negb (a_init sp) || negb (a_owner sp =? spec_cls) then ret tt else
+             r <- (match assoc (a_name sp) kw1 with
+                   | Some v => if is_missing v then (d <- lookup_default_value ct rec sp im ;; ret (d, false))
+                               else ret (v, top && negb (a_dnc sp))
+                   | None => d <- lookup_default_value ct rec sp im ;; ret (d, false) end) ;;
+             let '(value, copy_required) := r in
+             if is_missing value then ret tt else
+             value' <- (if copy_required then protect ct value else ret value) ;;
+             rec (KSetAttr self (a_name sp) value' true true) ;;; ret tt)
+          (c_attrs im))
+        (fun _ s => Inv2 (c_attrs im) s).
+    Proof.
+      intro Hkw1.
+      assert (Hall : forall l done,
+        (forall x, In x l -> In x (c_attrs im)) ->
+        KJ (Inv2 done)
+           (iterM (fun sp =>
+             if negb (a_init sp) || negb (a_owner sp =? spec_cls) then ret tt else
+             r <- (match assoc (a_name sp) kw1 with
+                   | Some v => if is_missing v then (d <- lookup_default_value ct rec sp im ;; ret (d, false))
+                               else ret (v, top && negb (a_dnc sp))
+                   | None => d <- lookup_default_value ct rec sp im ;; ret (d, false) end) ;;
+             let '(value, copy_required) := r in
+             if is_missing value then ret tt else
+             value' <- (if copy_required then protect ct value else ret value) ;;
+             rec (KSetAttr self (a_name sp) value' true true) ;;; ret tt) l)
+           (fun _ s => Inv2 (done ++ l) s)).
+      2:{ eapply kj_conseq; [apply (Hall (c_attrs im) []); auto| |auto].
+          intros s Hs. split; [exact Hs|]. intros sp []. }
+      induction l as [|sp l IH]; intros done Hsub; simpl.
+      { apply kj_ret. intros s Hs. rewrite app_nil_r. exact Hs. }
+      eapply kj_bind with (Q := fun _ s => Inv2 (done ++ [sp]) s).
+      2:{ intros ?. eapply kj_post; [apply IH; intros; apply Hsub; simpl; auto|].
+          intros ? s Hs. rewrite <- app_assoc in Hs. exact Hs. }
+      assert (Hspin : In sp (c_attrs im)) by (apply Hsub; simpl; auto).
+      (* what has to be shown for the new element when nothing is written *)
+      assert (Hskip : forall s, Inv2 done s ->
+                (a_init sp = true -> a_owner sp = spec_cls -> has_default im sp = true -> False) ->
+                Inv2 (done ++ [sp]) s).
+      { intros s [Hf Hd] Hno. split; [exact Hf|]. intros sp' Hin H1 H2 H3 H4 H5.
+        apply in_app_or in Hin. destruct Hin as [Hin|[<-|[]]]; [eapply Hd; eauto|]. exfalso; auto. }
+      destruct (negb (a_init sp) || negb (a_owner sp =? spec_cls)) eqn:Ec.
+      { apply kj_ret. intros s Hs. apply Hskip; auto. intros Hi Ho _.
+        rewrite Hi, Ho, Nat.eqb_refl in Ec. discriminate. }
+      eapply kj_bind.
+      { apply kj_of_kv with (Q := fun r : val * bool => nu (fst r) /\ (has_default im sp = true -> is_missing (fst r) = false));
+          [|apply Inv2_stable].
+        assert (Hdf : KV (d <- lookup_default_value ct rec sp im ;; ret (d, false))
+                         (fun r : val * bool => nu (fst r) /\ (has_default im sp = true -> is_missing (fst r) = false))).
+        { eapply kv_bind; [apply lookup_default_value_kv|]. intros d [Hd1 Hd2]. apply kv_ret. simpl. split; auto.
+          apply Hd2; eauto. }
+        destruct (assoc (a_name sp) kw1) as [v|] eqn:Ea; [|exact Hdf].
+        destruct (is_missing v) eqn:Emv; [exact Hdf|]. apply kv_ret. simpl. split; auto.
+        eapply kw_nu_assoc; eauto. }
+      intros [value cr]. apply kj_pure. intros [Hnu Hmiss]. simpl in Hnu, Hmiss.
+      destruct (is_missing value) eqn:Emv.
+      { apply kj_ret. intros s Hs. apply Hskip; auto. intros _ _ Hd. specialize (Hmiss Hd). congruence. }
+      eapply kj_bind.
+      { apply kj_of_kv with (Q := nu); [|apply Inv2_stable].
+        destruct cr; [|apply kv_ret; exact Hnu].
+        eapply kv_weaken; [apply protect_kv|]. intros r Hr. eapply same_kind_nu; eauto. }
+      intros value'. apply kj_pure. intro Hnu'.
+      eapply kj_bind.
+      { eapply kj_pre; [apply kj_frame with (F := Inv2 done);
+                          [apply Inv2_stable|apply (Hrec (KSetAttr self (a_name sp) value' true true) I)]|].
+        intros s H; split; [exact I|exact H]. }
+      intros ?. apply kj_ret. intros s [Hpost [Hf Hd]]. split; [exact Hf|].
+      intros sp' Hin H1 H2 H3 H4 H5.
+      apply in_app_or in Hin. destruct Hin as [Hin|[<-|[]]]; [eapply Hd; eauto|].
+      simpl in Hpost. apply (Hpost Hg Hnu' c); [apply Hf|]. split; auto. exists im, sp. auto.
+    Qed.
+
+    Lemma init_tail_kj :
+      KJ (isinst self c) (init_tail spec_cls self ks im top kw0)
+         (fun _ s => HP self c im (fun o => o = spec_cls \/ (c = spec_cls /\ In o (tl (c_mro im)))) s).
+    Proof.
+      unfold init_tail. eapply kj_bind; [apply phase1_kj|]. intros kw1.
+      apply kj_pure. intro Hkw1.
+      eapply kj_bind; [apply phase2_kj; exact Hkw1|]. intros ?.
+      eapply kj_bind with (Q := fun _ s => Inv2 (c_attrs im) s).
+      { apply kj_of_kp; [|apply Inv2_stable]. kgo. }
+      intros ?. apply kj_ret. intros s [[Hi Hh] Hd] a' sp H1 H2 H3 H4 [H5|[H5 H6]].
+      - destruct (lookup_attr_In _ _ _ H1) as [Hin Hn]. subst a'. eapply Hd; eauto.
+      - assert (Ht : top = true).
+        { unfold top. rewrite (tgb_owner ct c im Hg Him). rewrite H5. apply Nat.eqb_refl. }
+        assert (Hkk : ks = im) by (rewrite H5 in Him; congruence).
+        eapply Hh; eauto. split; [exact Ht|]. rewrite Hkk. exact H6.
+    Qed.
+  End InitTail.
+
+  Lemma init_kj spec_cls self kw0 :
+    KJ TT (init_ ct rec spec_cls self kw0) (kpost (KInit spec_cls self kw0)).
+  Proof.
+    eapply kj_post with (Q := fun _ s => (tgb ct = true /\ kw_nu kw0) ->
+        forall c k a sp, isinst self c s -> lookup_cls ct c = Some k -> lookup_attr k a = Some sp ->
+          a <> A_INITIALIZING -> a_init sp = true -> has_default k sp = true ->
+          (a_owner sp = spec_cls \/ (c = spec_cls /\ In (a_owner sp) (tl (c_mro k)))) -> has self c a s).
+    2:{ intros r s H. simpl. intros Hg Hkw. apply H. auto. }
+    apply kj_assume; [|apply kp_init]. intros [Hg Hkw].
+    rewrite init_unfold.
+    eapply kj_bind; [apply kj_cls_of|]. intros ks.
+    destruct (negb (init_wrapper_ok ks kw0)); [apply kj_fail|].
+    eapply kj_bind; [apply kj_read_inst|]. intros p.
+    eapply kj_bind; [apply kj_cls_of|]. intros im.
+    apply kj_pre with (P := fun s => (lookup_cls ct spec_cls = Some ks /\ lookup_cls ct (fst p) = Some im)
+                                      /\ (isinst self (fst p) s /\ isinst self (fst p) s)).
+    2:{ intros s [[[_ H1] H2] H3]. split; auto. split; eexists; eauto. }
+    apply kj_pure. intros [Hks Him].
+    eapply kj_post; [apply kj_frame with (F := isinst self (fst p));
+                       [apply isinst_stable|apply (init_tail_kj spec_cls self ks im (fst p) kw0 Hg Hks Him Hkw)]|].
+    intros r s [Hh Hi] c k a sp Hic Hk H1 H2 H3 H4 H5.
+    assert (c = fst p) by (eapply isinst_inj; eauto). subst c.
+    assert (k = im) by congruence. subst k. eapply Hh; eauto.
+  Qed.
+
+  (* ---------- the call C(pos, kw) ---------- *)
+  Lemma construct_kj c pos kw :
+    KJ TT (construct ct rec c pos kw) (kpost (KConstruct c pos kw)).
+  Proof.
+    unfold construct.
+    eapply kj_bind; [apply kj_cls_of|]. intros k.
+    apply kj_pre with (P := fun s => lookup_cls ct c = Some k /\ True); [|intros s [_ H]; auto].
+    apply kj_pure. intro Hk.
+    eapply kj_bind with (Q := fun kw' _ => kw_nu kw -> match pos with Some v => nu v | None => True end -> kw_nu kw').
+    { destruct pos as [v|]; [|apply kj_ret; auto]. destruct (c_key k) as [ka|]; [|apply kj_fail].
+      destruct (kw_has ka kw); [apply kj_fail|]. apply kj_ret. intros s _ H1 H2. constructor; auto. }
+    intros kw'. apply kj_pre with (P := fun s => (kw_nu kw -> match pos with Some v => nu v | None => True end -> kw_nu kw') /\ True);
+      [|intros s H; auto].
+    apply kj_pure. intro Hkw'.
+    eapply kj_bind with (Q := fun _ _ => True).
+    { apply kj_kp. kgo. }
+    intros ?. eapply kj_bind with (Q := fun _ _ => True).
+    { apply kj_kp. kgo. }
+    intros ?. eapply kj_bind; [apply kj_alloc; apply stable_const|]. intros l.
+    apply kj_pre with (P := isinst l c); [|intros s [_ H]; eexists; eauto].
+    eapply kj_bind.
+    { eapply kj_pre; [apply kj_frame with (F := isinst l c);
+                        [apply isinst_stable|apply (Hrec (KInit (c_owner k) l kw') I)]|].
+      intros s H; split; [exact I|exact H]. }
+    intros ?. apply kj_ret. intros s [Hpost Hi]. simpl. exists l. split; [reflexivity|].
+    intros Hg Hn Hp. split; [exact Hi|]. intros a' [Ha (k' & sp & H1 & H2 & H3 & H4)].
+    assert (k' = k) by congruence. subst k'.
+    simpl in Hpost. apply (Hpost Hg (Hkw' Hn Hp) c k a' sp); auto.
+    rewrite (tgb_owner ct c k Hg Hk).
+    destruct (lookup_attr_In _ _ _ H2) as [Hin _].
+    destruct (tgb_owners ct c k sp Hg Hk Hin) as [E|E]; auto.
+  Qed.
+
+  Theorem body_kj k : callk k -> KJ TT (body ct rec k) (kpost k).
+  Proof.
+    destruct k; simpl; intro H.
+    - apply setattr_kj.
+    - subst force. apply kj_kp. apply kp_delattr.
+    - apply construct_kj.
+    - apply init_kj.
+    - eapply kj_conseq; [apply kj_of_kv with (F := TT); [apply mutate_value_kv|apply stable_const]|auto|].
+      intros r s [Hq _]. exact Hq.
+  Qed.
 End Core.
+
+Theorem exec_kj ct fuel : forall k, callk k -> kj ct (fun _ => True) (exec ct fuel k) (kpost ct k).
+Proof.
+  induction fuel as [|f IH]; intros k Hk.
+  - simpl. apply kj_fail.
+  - change (exec ct (S f) k) with (body ct (exec ct f) k). apply body_kj; auto.
+Qed.
